@@ -13,8 +13,24 @@ NULLABLE_SHAPES = ["a*", "a?", "a*b*", "a?b?", "(a|b)*", "ab?c", "a?b?c", "ab*c*
                    "(a|b)*abb", "(ab|a)(c|bcd)", "a+b+", "(a+)?b", "[ab]*c?", "a?a?a?aaa"]
 
 
+def followpos_shapes(tier):
+    """Several positions that can end an operand (loops, options, alternatives), followed by an operand that can begin with m
+    different positions, m = 1..16: the follow sets of all the former receive the same first set (every size of that set)."""
+    heads = ["(a*|b*)", "(a*|b)", "(a|b)*", "a?b?", "(ab|a)*", "(a?|b)"] if tier != "quick" else ["(a*|b*)", "(a*|b)", "a?b?"]
+    sizes = range(1, 17) if tier != "quick" else [1, 2, 3, 4, 5, 6, 7, 8, 9, 11, 13, 15, 16]
+    out = []
+    for h in heads:
+        for m in sizes:
+            cls = "[" + "".join(chr(ord("c") + i) for i in range(m)) + "]"
+            out.append(h + cls + "z")
+            if tier != "quick":
+                out.append(h + cls + "*z")
+                out.append(h + "(" + "|".join(chr(ord("c") + i) for i in range(m)) + ")z")
+    return out
+
+
 def patterns_for(tier, rng):
-    pats = R.corpus(PROP) + NULLABLE_SHAPES + list(R.EVERY_CONSTRUCT)
+    pats = R.corpus(PROP) + NULLABLE_SHAPES + followpos_shapes(tier) + list(R.EVERY_CONSTRUCT)
     pats += R.small_exhaustive() if tier != "quick" else R.small_exhaustive()[::3]
     n = 120 if tier == "quick" else 2500
     for _ in range(n):
